@@ -1521,7 +1521,14 @@ namespace link_layer {
                     pdu.size = 0;
                 }
             }
-            else if ( llid == lld_data_pdu_code && state_ != state::disconnecting
+            else if ( llid != lld_data_pdu_code )
+            {
+                // neither a LL control PDU nor the start of a L2CAP PDU (e.g. a continuation fragment, while no
+                // fragmented L2CAP PDU is expected): there is nobody to hand it to, and it must not block the queue
+                this->free_ll_l2cap_received();
+                pdu = this->next_ll_l2cap_received();
+            }
+            else if ( state_ != state::disconnecting
                    && this->handle_l2cap_input( body.first, body.second - body.first, connection_data_ ) )
             {
                 this->free_ll_l2cap_received();
